@@ -8,11 +8,12 @@
        all pairs with respect to any Cartesian component of any atom, for every number of atoms;
        invariance of the pair energies under rigid motion.
    Uses the standard library's real-number axioms (reported by Print Assumptions). *)
-From Coq Require Import Reals Lra Lia ZArith Bool.
+From Coq Require Import Reals Lra Lia ZArith Bool RealField.
 From Coquelicot Require Import Coquelicot.
 From AV.lib Require Import Sums.
 From AV.C07 Require Import Model.
 From AV.gen Require Import C07_Gen.
+From AV.C07 Require Import Lemmas.
 Open Scope R_scope.
 
 Definition RO : ops := mkOps R 0 1 Rplus Rmult Rminus Ropp Rdiv Rinv.
@@ -301,11 +302,11 @@ Definition dist (X : nat -> nat -> R) (i j : nat) : R := sqrt (sqd X i j).
 (* replace Cartesian component k of atom a by x *)
 Definition upd (X : nat -> nat -> R) (a k : nat) (x : R) : nat -> nat -> R :=
   fun i c => if (Nat.eqb i a && Nat.eqb c k)%bool then x else X i c.
-(* every unordered pair once (cconf_gen.pyx:25-27 i > j; potentials.cpp:237-238 j > i;
-   idpp.py:62 half the sum over ordered pairs) *)
+(* every unordered pair once (cconf_gen.pyx:24-26 i > j; potentials.cpp:256-257 j > i;
+   idpp.py:60 half the sum over ordered pairs) *)
 Definition energy (X : nat -> nat -> R) : R :=
   Rsum N (fun i => Rsum i (fun j => term i j (dist X i j))).
-(* idpp.py:109-117 / cconf_gen.pyx:57-78 / potentials.cpp:278-322: for atom a, sum over all j <> a *)
+(* idpp.py:106-113 / cconf_gen.pyx:55-79 / potentials.cpp:278-336: for atom a, sum over all j <> a *)
 Definition gradient (X : nat -> nat -> R) (a k : nat) : R :=
   Rsum N (fun j => if Nat.eqb j a then 0 else coef a j (dist X a j) * (X a k - X j k)).
 
@@ -477,10 +478,10 @@ Variable N : nat.
 Variable C : nat -> nat -> R.          (* r_ij^(k): the target distances of this image *)
 Hypothesis C_sym : forall i j, C i j = C j i.
 
-(* idpp.py:57-62  S = 0.5 * sum_ij w_ij (r^k_ij - r_ij)^2 with w_ii = 0 (idpp.py:171) *)
+(* idpp.py:57-60  S = 0.5 * sum_ij w_ij (r^k_ij - r_ij)^2 with w_ii = 0 (idpp.py:170) *)
 Definition idpp_energy (X : nat -> nat -> R) : R :=
   / 2 * Rsum N (fun i => Rsum N (fun j => if Nat.eqb i j then 0 else idpp_term RO (C i j) (dist X i j))).
-(* idpp.py:92-117  grad[a,k] = sum_j a_aj (x_ak - x_jk), a_aa = 0 *)
+(* idpp.py:92-113  grad[a,k] = sum_j a_aj (x_ak - x_jk), a_aa = 0 *)
 Definition idpp_grad (X : nat -> nat -> R) (a k : nat) : R :=
   Rsum N (fun j => if Nat.eqb j a then 0 else idpp_coef RO (C a j) (dist X a j) * (X a k - X j k)).
 
@@ -597,3 +598,198 @@ Proof.
   unfold pow_f, pow_f', pow_f''. cbn [evF evR zexp]. rewrite !fpowz_RO, !of_Z_RO.
   cbn [fmul fsub RO]. repeat split; reflexivity.
 Qed.
+
+(* ================= (3) soundness step: the jet operations compute partial derivatives ================= *)
+(* A two-parameter family G(s,t) (think G(s,t) = g(x + s e_i + t e_j)) with its s-partial Gs, its t-partial Gt and the
+   mixed partial Gst = d/dt Gs, at every point of a set D (no topology needed: is_derive is local). *)
+Definition jetfield (D : R -> R -> Prop) (G Gs Gt Gst : R -> R -> R) : Prop :=
+  forall s t, D s t ->
+    is_derive (fun u => G u t) s (Gs s t) /\
+    is_derive (fun u => G s u) t (Gt s t) /\
+    is_derive (fun u => Gs s u) t (Gst s t).
+
+Definition J (G Gs Gt Gst : R -> R -> R) (s t : R) : hd2 RO := mkHd2 (K := RO) (G s t) (Gs s t) (Gt s t) (Gst s t).
+Definition c0 (f : hd2 RO -> R) (a : R -> R -> hd2 RO) : R -> R -> R := fun s t => f (a s t).
+(* the four component functions of a family of algebra elements form a jet field *)
+Definition jetfield_of (D : R -> R -> Prop) (a : R -> R -> hd2 RO) : Prop :=
+  jetfield D (c0 s0 a) (c0 s1 a) (c0 s2 a) (c0 s12 a).
+
+Lemma is_derive_eq (f : R -> R) x l l' : is_derive f x l -> l = l' -> is_derive f x l'.
+Proof. intros H <-. exact H. Qed.
+Lemma id_mult (f g : R -> R) x df dg :
+  is_derive f x df -> is_derive g x dg -> is_derive (fun u => f u * g u) x (df * g x + f x * dg).
+Proof. intros Hf Hg. apply (is_derive_mult f g x df dg Hf Hg). intros n m. apply Rmult_comm. Qed.
+Lemma id_plus (f g : R -> R) x df dg :
+  is_derive f x df -> is_derive g x dg -> is_derive (fun u => f u + g u) x (df + dg).
+Proof. intros Hf Hg. exact (is_derive_plus f g x df dg Hf Hg). Qed.
+Lemma id_opp (f : R -> R) x df : is_derive f x df -> is_derive (fun u => - f u) x (- df).
+Proof. intros Hf. exact (is_derive_opp f x df Hf). Qed.
+Lemma id_comp (f g : R -> R) x df dg :
+  is_derive f (g x) df -> is_derive g x dg -> is_derive (fun u => f (g u)) x (dg * df).
+Proof. intros Hf Hg. exact (is_derive_comp f g x df dg Hf Hg). Qed.
+Lemma id_const (c x : R) : is_derive (fun _ : R => c) x 0.
+Proof. auto_derive; [exact I|eqR; ring]. Qed.
+
+Section JetFields.
+Variable D : R -> R -> Prop.
+
+Lemma jf_const c : jetfield_of D (fun _ _ => hd2_const RO c).
+Proof. intros s t _. unfold c0. cbn. split; [|split]; apply id_const. Qed.
+
+(* the coordinate x + s a + t b (a, b in {0,1}: Kronecker deltas of the seeded variable) *)
+Lemma jf_coord x a b : jetfield_of D (fun s t => mkHd2 (K := RO) (x + s * a + t * b) a b 0).
+Proof.
+  intros s t _. unfold c0. cbn [s0 s1 s2 s12]. split; [|split].
+  - auto_derive; [exact I|eqR; ring].
+  - auto_derive; [exact I|eqR; ring].
+  - apply id_const.
+Qed.
+
+Lemma jf_add a b : jetfield_of D a -> jetfield_of D b -> jetfield_of D (fun s t => hd2_add RO (a s t) (b s t)).
+Proof.
+  intros Ha Hb s t Hd. destruct (Ha s t Hd) as [A1 [A2 A3]]. destruct (Hb s t Hd) as [B1 [B2 B3]].
+  unfold c0 in *. cbn [hd2_add s0 s1 s2 s12 fadd RO]. split; [|split]; apply id_plus; assumption.
+Qed.
+
+Lemma jf_neg a : jetfield_of D a -> jetfield_of D (fun s t => hd2_neg RO (a s t)).
+Proof.
+  intros Ha s t Hd. destruct (Ha s t Hd) as [A1 [A2 A3]].
+  unfold c0 in *. cbn [hd2_neg s0 s1 s2 s12 fopp RO]. split; [|split]; apply id_opp; assumption.
+Qed.
+
+Lemma jf_mul a b : jetfield_of D a -> jetfield_of D b -> jetfield_of D (fun s t => hd2_mul RO (a s t) (b s t)).
+Proof.
+  intros Ha Hb s t Hd. destruct (Ha s t Hd) as [A1 [A2 A3]]. destruct (Hb s t Hd) as [B1 [B2 B3]].
+  unfold c0 in *. cbn [hd2_mul s0 s1 s2 s12 fadd fmul RO]. split; [|split].
+  - apply (is_derive_eq _ _ _ _ (id_mult _ _ _ _ _ A1 B1)). eqR. ring.
+  - apply (is_derive_eq _ _ _ _ (id_mult _ _ _ _ _ A2 B2)). eqR. ring.
+  - apply (is_derive_eq _ _ _ _ (id_plus _ _ _ _ _ (id_mult _ _ _ _ _ A2 B3) (id_mult _ _ _ _ _ A3 B2))). eqR. ring.
+Qed.
+
+(* chain rule: (f, f1, f2) with f1 = f' and f2 = f1' on a set P that contains the range of the family *)
+Lemma jf_apply (P : R -> Prop) (f f1 f2 : R -> R) (a : R -> R -> hd2 RO) :
+  (forall y, P y -> is_derive f y (f1 y)) -> (forall y, P y -> is_derive f1 y (f2 y)) ->
+  (forall s t, D s t -> P (s0 (a s t))) ->
+  jetfield_of D a ->
+  jetfield_of D (fun s t => hd2_taylor' RO (f (s0 (a s t))) (f1 (s0 (a s t))) (f2 (s0 (a s t))) (a s t)).
+Proof.
+  intros Hf Hf1 HP Ha s t Hd. destruct (Ha s t Hd) as [A1 [A2 A3]]. pose proof (HP s t Hd) as Hp.
+  unfold c0 in *. cbn [hd2_taylor' s0 s1 s2 s12 fadd fmul RO]. split; [|split].
+  - apply (is_derive_eq _ _ _ _ (id_comp f (fun u => s0 (a u t)) s _ _ (Hf _ Hp) A1)). eqR. ring.
+  - apply (is_derive_eq _ _ _ _ (id_comp f (fun u => s0 (a s u)) t _ _ (Hf _ Hp) A2)). eqR. ring.
+  - apply (is_derive_eq _ _ _ _ (id_mult (fun u => f1 (s0 (a s u))) (fun u => s1 (a s u)) t _ _
+                       (id_comp f1 (fun u => s0 (a s u)) t _ _ (Hf1 _ Hp) A2) A3)).
+    cbn beta. eqR. ring.
+Qed.
+
+End JetFields.
+
+(* hd_pow over R uses a correct triple away from zero (field evaluation = real semantics) *)
+Lemma powF_triple k y : y <> 0 ->
+  is_derive (evF RO k pow_f) y (evF RO k pow_f' y) /\ is_derive (evF RO k pow_f') y (evF RO k pow_f'' y).
+Proof.
+  intros Hy. destruct (pow_triple_int k y Hy) as [T1 T2]. destruct (evF_evR_pow k y) as [_ [E1 E2]].
+  rewrite E1, E2. split.
+  - apply (is_derive_ext (fun t => evR (Some k) (IZR k) pow_f t 0)); [|exact T1].
+    intros t. destruct (evF_evR_pow k t) as [E _]. symmetry. exact E.
+  - apply (is_derive_ext (fun t => evR (Some k) (IZR k) pow_f' t 0)); [|exact T2].
+    intros t. destruct (evF_evR_pow k t) as [_ [E _]]. symmetry. exact E.
+Qed.
+
+(* ---- second partial derivatives of both atan2 branch formulas ---- *)
+Lemma polar_second_partials x y : x ^ 2 + y ^ 2 <> 0 ->
+  is_derive (fun t => x / (x ^ 2 + t ^ 2)) y (- (2 * x * y) / (x ^ 2 + y ^ 2) ^ 2) /\
+  is_derive (fun t => t / (t ^ 2 + y ^ 2)) x ((y ^ 2 - x ^ 2) / (x ^ 2 + y ^ 2) ^ 2) /\
+  is_derive (fun t => - t / (x ^ 2 + t ^ 2)) y ((y ^ 2 - x ^ 2) / (x ^ 2 + y ^ 2) ^ 2) /\
+  is_derive (fun t => - y / (t ^ 2 + y ^ 2)) x ((2 * x * y) / (x ^ 2 + y ^ 2) ^ 2).
+Proof.
+  intros H. assert (H' : x * (x * 1) + y * (y * 1) <> 0) by (intros E; apply H; rewrite <- E; ring).
+  split; [|split; [|split]]; (auto_derive; [repeat split; try exact I; exact H'|eqR; field; exact H]).
+Qed.
+
+(* ---------- the hyper-dual operations compute partial derivatives ---------- *)
+(* A(s,t): a family of hyper-dual numbers (think: the hyper-dual evaluation of an expression at x + s e_i + t e_j).
+   "computes D i j A": on D, the entry d1 i of A is the s-partial of its value, d1 j the t-partial, and d2 i j the
+   t-partial of d1 i. *)
+Definition computes (D : R -> R -> Prop) (i j : nat) (A : R -> R -> hd RO) : Prop :=
+  jetfield_of D (fun s t => proj RO i j (A s t)).
+
+Lemma jetfield_of_ext D (a b : R -> R -> hd2 RO) :
+  (forall s t, a s t = b s t) -> jetfield_of D a -> jetfield_of D b.
+Proof.
+  intros E Ha s t Hd. destruct (Ha s t Hd) as [A1 [A2 A3]]. unfold c0 in *. rewrite <- !E. split; [|split].
+  - apply (is_derive_ext (fun u => s0 (a u t))); [intros u; rewrite E; reflexivity|exact A1].
+  - apply (is_derive_ext (fun u => s0 (a s u))); [intros u; rewrite E; reflexivity|exact A2].
+  - apply (is_derive_ext (fun u => s1 (a s u))); [intros u; rewrite E; reflexivity|exact A3].
+Qed.
+
+Section Computes.
+Variables (D : R -> R -> Prop) (i j : nat).
+Notation cmp := (computes D i j).
+
+Lemma cmp_var k x :
+  cmp (fun s t => hd_from_variable RO k (x + s * (if Nat.eqb i k then 1 else 0) + t * (if Nat.eqb j k then 1 else 0))).
+Proof.
+  unfold computes. eapply jetfield_of_ext; [|apply (jf_coord D x (if Nat.eqb i k then 1 else 0) (if Nat.eqb j k then 1 else 0))].
+  intros s t. rewrite (from_variable_is_coord RO Rfield). rewrite proj_coord. reflexivity.
+Qed.
+Lemma cmp_const c : cmp (fun _ _ => hd_const RO c).
+Proof. unfold computes. eapply jetfield_of_ext; [|apply (jf_const D c)]. intros s t. reflexivity. Qed.
+Lemma cmp_add A B : cmp A -> cmp B -> cmp (fun s t => hd_add RO (A s t) (B s t)).
+Proof.
+  intros Ha Hb. unfold computes. eapply jetfield_of_ext; [|apply (jf_add D _ _ Ha Hb)].
+  intros s t. symmetry. apply (proj_add RO Rfield).
+Qed.
+Lemma cmp_neg A : cmp A -> cmp (fun s t => hd_neg RO (A s t)).
+Proof.
+  intros Ha. unfold computes. eapply jetfield_of_ext; [|apply (jf_neg D _ Ha)].
+  intros s t. symmetry. apply (proj_neg RO Rfield).
+Qed.
+Lemma cmp_sub A B : cmp A -> cmp B -> cmp (fun s t => hd_sub RO (A s t) (B s t)).
+Proof. intros Ha Hb. unfold hd_sub. apply cmp_add; [exact Ha|apply cmp_neg; exact Hb]. Qed.
+Lemma cmp_mul A B : cmp A -> cmp B -> cmp (fun s t => hd_mul RO (A s t) (B s t)).
+Proof.
+  intros Ha Hb. unfold computes. eapply jetfield_of_ext; [|apply (jf_mul D _ _ Ha Hb)].
+  intros s t. symmetry. apply (proj_mul RO Rfield).
+Qed.
+Lemma cmp_mul_scalar A c : cmp A -> cmp (fun s t => hd_mul_scalar RO (A s t) c).
+Proof.
+  intros Ha. unfold computes. eapply jetfield_of_ext; [|apply (jf_mul D _ _ (jf_const D c) Ha)].
+  intros s t. symmetry. apply (proj_mul_scalar RO Rfield).
+Qed.
+Lemma cmp_add_scalar A c : cmp A -> cmp (fun s t => hd_add_scalar RO (A s t) c).
+Proof.
+  intros Ha. unfold computes. eapply jetfield_of_ext; [|apply (jf_add D _ _ Ha (jf_const D c))].
+  intros s t. symmetry. apply (proj_add_scalar RO Rfield).
+Qed.
+Lemma cmp_apply (P : R -> Prop) (f f1 f2 : R -> R) (A : R -> R -> hd RO) :
+  (forall y, P y -> is_derive f y (f1 y)) -> (forall y, P y -> is_derive f1 y (f2 y)) ->
+  (forall s t, D s t -> P (v (A s t))) -> cmp A -> cmp (fun s t => hd_apply RO f f1 f2 (A s t)).
+Proof.
+  intros H1 H2 HP Ha. unfold computes.
+  eapply jetfield_of_ext; [|apply (jf_apply D P f f1 f2 (fun s t => proj RO i j (A s t)) H1 H2 HP Ha)].
+  intros s t. symmetry. apply (proj_apply RO Rfield).
+Qed.
+Lemma cmp_pow (A : R -> R -> hd RO) k : (forall s t, D s t -> v (A s t) <> 0) -> cmp A -> cmp (fun s t => hd_pow RO (A s t) k).
+Proof.
+  intros Hn Ha. unfold hd_pow. apply (cmp_apply (fun y => y <> 0)); try assumption.
+  - intros y Hy. apply (powF_triple k y Hy).
+  - intros y Hy. apply (powF_triple k y Hy).
+Qed.
+Lemma cmp_div (A B : R -> R -> hd RO) : (forall s t, D s t -> v (B s t) <> 0) -> cmp A -> cmp B -> cmp (fun s t => hd_div RO (A s t) (B s t)).
+Proof. intros Hn Ha Hb. unfold hd_div. apply cmp_mul; [exact Ha|apply cmp_pow; assumption]. Qed.
+Lemma cmp_rdiv c (A : R -> R -> hd RO) : (forall s t, D s t -> v (A s t) <> 0) -> cmp A -> cmp (fun s t => hd_rdiv RO c (A s t)).
+Proof. intros Hn Ha. unfold hd_rdiv. apply cmp_mul_scalar. apply cmp_pow; assumption. Qed.
+
+(* a translated DifferentiableMath function: apply_operation with its (f, f', f'') triple *)
+Lemma cmp_math (d : dom) (f f1 f2 : uexpr) (A : R -> R -> hd RO) :
+  (forall x, dom_holds d x -> is_derive (fun t => evR None 0 f t 0) x (evR None 0 f1 x 0) /\
+                              is_derive (fun t => evR None 0 f1 t 0) x (evR None 0 f2 x 0)) ->
+  (forall s t, D s t -> dom_holds d (v (A s t))) -> cmp A ->
+  cmp (fun s t => hd_apply RO (fun y => evR None 0 f y 0) (fun y => evR None 0 f1 y 0) (fun y => evR None 0 f2 y 0) (A s t)).
+Proof.
+  intros T Hd Ha. apply (cmp_apply (dom_holds d)); try assumption.
+  - intros y Hy. apply (T y Hy).
+  - intros y Hy. apply (T y Hy).
+Qed.
+End Computes.
